@@ -2,8 +2,7 @@
 
 Proof: GV.Props.C06 (emitted JS scheme per (type, operator) = BitVec spec for all operand values, full strength for every
 binary/unary operator, shift (all counts >= 0), comparison and conversion; canonical results; exact doubles; 64-bit constructor,
-inline + - unary -, $mul64, the three shift helpers for every count, $flatten64; $div64: panic condition, canonical result and
-termination of the normalisation loop — its quotient/remainder values are tied, not proved).
+inline + - unary -, $mul64, the three shift helpers for every count, $div64 (both loops, signs, MIN / -1), $flatten64).
 The model mirrors the tree AFTER the fixes fixes/C06-{unary-minus,quo-fixup,rem-fixup,shr-const-count}.patch.
 Ties: (A) the real prelude helpers under Node vs the Lean model vs the Lean BitVec spec on a boundary grid plus
 seeded random 64-bit patterns; (B) compiled table-driven Go programs (one unit per (type, operator, operand shape))
@@ -22,7 +21,7 @@ THEOREMS = ["valOf_bv", "bv_valOf", "add_correct", "sub_correct", "mul_correct",
             "shr_const_count_counterexample_v0",
             "exact_doubles", "exact_doubles_plain_mul_fails",
             "mk64_canon", "mk64_value", "add64_correct", "sub64_correct", "neg64_correct", "valOf_toBV", "flatten64_exact",
-            "mul64_correct", "mul64_scheme", "shift64_correct", "div64_panic_iff", "div64_canon", "div64_norm_terminates",
+            "mul64_correct", "mul64_scheme", "shift64_correct", "div64_correct", "div64_norm_terminates",
             "specShift_clamp"]
 
 ENV_THEOREMS = ["optable_known", "optable_member", "mul_patterns", "small_const_mul_inexact"]
@@ -1106,7 +1105,12 @@ def run(tier, seed):
                 "on all pairs of a 28-value boundary grid, all shift counts 0..130 (+ huge), seeded random 64-bit patterns; "
                 "(B) table-driven Go programs compiled by the real compiler, one unit per (type, operator, operand shape in var/nested/const), "
                 "results read from the raw JS representation; a case is non-trivial when distinct (sha1 of op line incl. shape); "
-                "impl (GopherJS) vs Lean scheme model vs Lean BitVec spec, native Go validates the spec for sized types")
+                "impl (GopherJS) vs Lean scheme model vs Lean BitVec spec, native Go validates the spec for sized types; the constant shape "
+                "puts the constant on either side and draws it from every 2^k-1, 2^k+1 (k = 1..width), odd values inside every (2^k, 2^(k+1)), "
+                "their negatives, MIN/MAX, against run-time operands at MIN/MAX, 2^(w-1)+-1 and random odd full-width values; "
+                "(X) the (operator case, guard path) -> emitted expression table of translateExpr/translateConversion/fixNumber is re-extracted "
+                "with go/ast (gvh_c06) and must equal GV.Model.NumOpTable (GV.Props.C06Env.optable_known); when it does not, the widened search "
+                "(all 8-bit pairs, full boundary grid, full constant grid for the affected operators) looks for a failing input")
     chk.trusted = ["Lean 4.33 kernel", "axioms: propext, Classical.choice, Quot.sound at most (listed per theorem)",
                    "hand-written models GV.Model.{JSInt,Num64,NumScheme} tied to numeric.js/types.js/expressions.go by these differential runs",
                    "GV.Spec.Num = BitVec reading of the Go spec, validated against native Go on the same cases"]
